@@ -18,11 +18,18 @@ def phasors(repo, facts=None):
     out = []
     seen = set()
     for p in returns(paths):
+        conds_of = {}
+        for lp in p.state.loops:
+            for bs, cds in zip(lp.get('states', []), lp.get('conds', [])):
+                for e in bs.events[lp['n_pre_events']:]:
+                    if e.kind == 'call' and e.data.get('new') == 'field.Field':
+                        conds_of.setdefault(id(e), cds)
         for e in p.events:
             if e.kind == 'call' and e.data.get('new') == 'field.Field' and e.depth == 0:
                 k = nf.vkey(e.bound.get('data')) + '|' + nf.vkey(e.bound.get('tilt')) + '|' + nf.vkey(e.bound.get('offset'))
                 if k not in seen:
                     seen.add(k)
+                    e.data['path_conds'] = conds_of.get(id(e), [])
                     out.append((p, e))
     if not out:
         raise AnalysisError('Plane.multiply builds no phasor Field')
